@@ -134,6 +134,9 @@ impl ClientPlan {
                 registration_currency: None,
                 eod_abort_receipt: None,
                 status_shows_abort_code: false,
+                silent_terminal_stops_reading: false,
+                init_abort_first_n: 0,
+                reservation_status_amount: None,
             },
             init: ConfigureOutcome::plain(),
             ops,
